@@ -190,8 +190,138 @@ fn c17_total(t: &[&str]) -> Option<String> {
     Some("ok holds".to_string())
 }
 
+/// C14: the three views of the lattice agree, evaluated on the real `Cell2` methods.
+/// args: cell (L R A fam) x y <mat9> shells zero
+fn c14_lattice(t: &[&str]) -> Option<String> {
+    let mut k = crate::exec::Toks::new(t);
+    let (l, r, a) = (k.f()?, k.f()?, k.f()?);
+    let fam = k.s()?;
+    let c = crate::exec::cell_from(l, r, a, fam)?;
+    let (x, y) = (k.f()?, k.f()?);
+    let m = k.mat()?;
+    let shells = k.i64()?;
+    let zero = k.s()? == "1";
+    let b = l * r;
+    let (ax, ay) = (l, 0.0);
+    let (bx, by) = (b * a.cos(), b * a.sin());
+    let scale = 1.0 + l.abs() + b.abs();
+    let tol = 1e-12 * scale;
+    // linear map
+    let (cx, cy) = c.to_cartesian(x, y);
+    let (ex, ey) = (x * ax + y * bx, x * ay + y * by);
+    if (cx - ex).abs() > tol * (1.0 + x.abs() + y.abs()) || (cy - ey).abs() > tol * (1.0 + x.abs() + y.abs()) {
+        return Some(format!("ok FAILS linear ({},{}) -> ({},{}) expected ({},{})", x, y, cx, cy, ex, ey));
+    }
+    // area
+    let cross = (ax * by - ay * bx).abs();
+    if (c.area() - cross).abs() > 1e-12 * (1.0 + cross) {
+        return Some(format!("ok FAILS area {} expected |AxB| = {}", c.area(), cross));
+    }
+    // images
+    let mm = mat_of(&m);
+    let base = c.to_cartesian_isometry(m);
+    let bm = mat_of(&base);
+    let imgs: Vec<Transform2> = c.periodic_images(m, shells, zero).collect();
+    let side = if shells < 0 { 0 } else { 2 * shells + 1 } as usize;
+    let expect = if side == 0 { 0 } else { side * side - if zero { 0 } else { 1 } };
+    if imgs.len() != expect {
+        return Some(format!("ok FAILS image-count {} expected {}", imgs.len(), expect));
+    }
+    let mut seen: Vec<(i64, i64)> = vec![];
+    for im in imgs.iter() {
+        let q = mat_of(im);
+        for (i, j) in [(0, 0), (0, 1), (1, 0), (1, 1), (2, 0), (2, 1), (2, 2)].iter() {
+            if q[(*i, *j)].to_bits() != mm[(*i, *j)].to_bits() && !(q[(*i, *j)].is_nan() && mm[(*i, *j)].is_nan()) {
+                return Some("ok FAILS image-orientation-changed".to_string());
+            }
+        }
+        // which lattice vector? solve (dx,dy) = n A + m B
+        let (dx, dy) = (q[(0, 2)] - bm[(0, 2)], q[(1, 2)] - bm[(1, 2)]);
+        let mf = dy / by;
+        let nf = (dx - mf * bx) / ax;
+        let (n, mi) = (nf.round(), mf.round());
+        if (nf - n).abs() > 1e-6 || (mf - mi).abs() > 1e-6 {
+            return Some(format!("ok FAILS image-not-a-lattice-translate n={} m={}", nf, mf));
+        }
+        let (n, mi) = (n as i64, mi as i64);
+        if n.abs() > shells || mi.abs() > shells || (!zero && n == 0 && mi == 0) {
+            return Some(format!("ok FAILS image-outside-shells n={} m={}", n, mi));
+        }
+        if seen.contains(&(n, mi)) {
+            return Some(format!("ok FAILS image-duplicate n={} m={}", n, mi));
+        }
+        seen.push((n, mi));
+    }
+    Some("ok holds".to_string())
+}
+
+fn frac_dist(x: f64) -> f64 {
+    (x - x.round()).abs()
+}
+
+/// C15: the placements of a site, evaluated on the real `OccupiedSite::positions`.
+/// args: site (nops mats x y angle) shift_n shift_m shift_j
+fn c15_site(t: &[&str]) -> Option<String> {
+    let mut k = crate::exec::Toks::new(t);
+    let ops = k.mats()?;
+    let (x, y, th) = (k.f()?, k.f()?, k.f()?);
+    let (sn, sm, sj) = (k.i64()?, k.i64()?, k.i64()?);
+    let site = crate::exec::site_from(ops.clone(), x, y, th)?;
+    let pos: Vec<Transform2> = site.positions().collect();
+    if pos.len() != ops.len() {
+        return Some(format!("ok FAILS count {} expected {}", pos.len(), ops.len()));
+    }
+    let (s, c) = th.sin_cos();
+    for (kk, (p, g)) in pos.iter().zip(ops.iter()).enumerate() {
+        let (p, g) = (mat_of(p), mat_of(g));
+        let (px, py) = (p[(0, 2)], p[(1, 2)]);
+        if !(px >= -0.5 && px < 0.5 && py >= -0.5 && py < 0.5) {
+            return Some(format!("ok FAILS outside-cell copy {} at ({},{})", kk, px, py));
+        }
+        let gx = g[(0, 0)] * x + g[(0, 1)] * y + g[(0, 2)];
+        let gy = g[(1, 0)] * x + g[(1, 1)] * y + g[(1, 2)];
+        if frac_dist(px - gx) > 1e-9 || frac_dist(py - gy) > 1e-9 {
+            return Some(format!("ok FAILS not-congruent copy {} at ({},{}) vs op image ({},{})", kk, px, py, gx, gy));
+        }
+        let lin = [
+            g[(0, 0)] * c + g[(0, 1)] * s,
+            -g[(0, 0)] * s + g[(0, 1)] * c,
+            g[(1, 0)] * c + g[(1, 1)] * s,
+            -g[(1, 0)] * s + g[(1, 1)] * c,
+        ];
+        let got = [p[(0, 0)], p[(0, 1)], p[(1, 0)], p[(1, 1)]];
+        for i in 0..4 {
+            if (lin[i] - got[i]).abs() > 1e-12 {
+                return Some(format!("ok FAILS linear-part copy {} entry {}: {} expected {}", kk, i, got[i], lin[i]));
+            }
+        }
+    }
+    // lattice-shifted description of the same site
+    let two_pi = 2.0 * std::f64::consts::PI;
+    let site2 = crate::exec::site_from(ops.clone(), x + sn as f64, y + sm as f64, th + sj as f64 * two_pi)?;
+    let pos2: Vec<Transform2> = site2.positions().collect();
+    if pos2.len() != pos.len() {
+        return Some("ok FAILS shifted-count".to_string());
+    }
+    for (kk, (p, q)) in pos.iter().zip(pos2.iter()).enumerate() {
+        let (p, q) = (mat_of(p), mat_of(q));
+        // positions equal modulo the lattice (a coordinate within rounding of ±1/2 may wrap to the other face)
+        if frac_dist(p[(0, 2)] - q[(0, 2)]) > 1e-9 || frac_dist(p[(1, 2)] - q[(1, 2)]) > 1e-9 {
+            return Some(format!("ok FAILS shifted-position copy {}", kk));
+        }
+        for (i, j) in [(0, 0), (0, 1), (1, 0), (1, 1)].iter() {
+            if (p[(*i, *j)] - q[(*i, *j)]).abs() > 1e-9 {
+                return Some(format!("ok FAILS shifted-orientation copy {}", kk));
+            }
+        }
+    }
+    Some("ok holds".to_string())
+}
+
 pub fn oracle(t: &[&str]) -> Option<String> {
     match *t.get(0)? {
+        "c14_lattice" => c14_lattice(&t[1..]),
+        "c15_site" => c15_site(&t[1..]),
         "c16_group" => Some(c16_group(t.get(1)?)),
         "c17_denote" => c17_denote(&t[1..]),
         "c17_total" => c17_total(&t[1..]),
